@@ -109,8 +109,11 @@ let parse_cmd (code : string) (fs : string list) : bcmd option =
   | "un" -> Some (BBounce (code_unimplemented, n_of_int (int_of_n begin_commands + int_or 0 (nth 0))))
   | "dn" -> Some (BBounce (code_denied, n_of_int (int_of_n begin_commands + int_or 0 (nth 0))))
   | "jr" -> if nth 0 = "-" then Some (BJettResults None) else Some (BJettResults (Some (keys_of (nth 0))))
-  | "jt" -> if nth 0 = "-" then Some (BJettTrees None) else Some (BJettTrees (Some (List.map (fun x -> Obj.repr x) (items (nth 0)))))
-  | "gt" -> Some (BGetTrees ((if nth 0 = "-" then None else Some (intern (nth 0))), keys_of (nth 1)))
+  (* a request id of the wrong type (#N = int32) is no string field: FindString / HasName(.., B_STRING_TYPE) fail *)
+  | "jt" -> let wrong = String.length (nth 0) > 0 && (nth 0).[0] = '#' in
+    if nth 0 = "-" || wrong then Some (BJettTrees None) else Some (BJettTrees (Some (List.map (fun x -> Obj.repr x) (items (nth 0)))))
+  | "gt" -> let wrong = String.length (nth 0) > 0 && (nth 0).[0] = '#' in
+    Some (BGetTrees ((if nth 0 = "-" || wrong then None else Some (intern (nth 0))), keys_of (nth 1)))
   | _ -> None
 
 (* ---- printing *)
